@@ -573,8 +573,7 @@ theorem tfAdd_started (n : Nat) (g : List FiberIn) (s : IState) (hs : s.started 
     (hn : s.numRanks = n) (h : ShapeOk n g) (hd : ascPre g = true) :
     tfAdd s (groupRows g).1 (groupRows g).2 = some { s with count := s.count + tfSpecAll g } := by
   have hl := tfLoop_group g hd
-  simp only [tfAdd, hs, Bool.not_true, Bool.false_eq_true, if_false, Option.bind_eq_bind,
-    Option.bind_some, hn, startPts_group n g h]
+  simp only [tfAdd, hs, Option.bind_eq_bind, hn, startPts_group n g h, Option.bind_some]
   cases hq0 : (groupPts g).1 with
   | nil =>
     rw [hq0, tfLoop_nil_left] at hl
@@ -599,7 +598,7 @@ theorem tfAdd_first (n : Nat) (g : List FiberIn) (s : IState) (hs : s.started = 
       = some { started := true, numRanks := n, count := s.count + tfSpecAll g } := by
   have hn : (2 * n + 1 - 1) / 2 = n := by omega
   have := tfAdd_started n g { s with started := true, numRanks := n } rfl rfl h hd
-  simp only [tfAdd, hs, Bool.not_false, if_true, TRow.len, hn, List.drop_succ_cons, List.drop_zero,
+  simp only [tfAdd, hs, TRow.len, hn, List.drop_succ_cons, List.drop_zero,
     Option.bind_eq_bind, Option.bind_some] at this ⊢
   simpa [tfAdd] using this
 
@@ -680,15 +679,20 @@ theorem batchesOf_cons_cons (n : Nat) (f : FiberIn) (g : List FiberIn) (r : List
       (TRow.hdr (2 * n + 1) :: (groupRows (f :: g)).1, TRow.hdr (2 * n + 1) :: (groupRows (f :: g)).2)
         :: r.map groupRows := rfl
 
-/-- two-finger: provided the first call is not empty (an empty first trace raises IndexError) -/
-theorem tfTotal_batches (n : Nat) (groups : List (List FiberIn)) (h : GroupsOk n groups)
-    (hne : groups.head? ≠ some []) :
+theorem tfAdd_empty_unstarted : tfAdd {} [] [] = some {} := by
+  simp [tfAdd, startPts]
+
+/-- two-finger: any grouping, empty calls anywhere -/
+theorem tfTotal_batches (n : Nat) (groups : List (List FiberIn)) (h : GroupsOk n groups) :
     tfTotal (batchesOf n groups) = some (tfSpecAll groups.flatten : Int) := by
-  cases groups with
+  induction groups with
   | nil => simp [tfTotal, batchesOf, feed2, tfSpecAll]
-  | cons g r =>
+  | cons g r ih =>
     cases g with
-    | nil => simp at hne
+    | nil =>
+      have := ih (fun x hx => h x (List.mem_cons_of_mem _ hx))
+      simp only [tfTotal, batchesOf, feed2, tfAdd_empty_unstarted, Option.bind_some] at this ⊢
+      simpa using this
     | cons f g' =>
       obtain ⟨h1, h2⟩ := h (f :: g') (List.mem_cons_self ..)
       rw [batchesOf_cons_cons]
@@ -740,15 +744,46 @@ theorem foldl_lfAdd_started (bs : List (List TRow)) (s : IState) (hs : s.started
     rw [ih _ h1, h2]
     omega
 
-/-- any batching of a trace: the total is the number of rows behind the header -/
-theorem lfTotal_cons (b : List TRow) (r : List (List TRow)) :
+theorem lfAdd_empty_unstarted (s : IState) (hs : s.started = false) : lfAdd s [] = s := by
+  cases s; simp_all [lfAdd]
+
+/-- any batching of a trace: the total is the number of rows behind the header (nothing, as
+    long as no row has arrived) -/
+theorem lfTotal_rows (bs : List (List TRow)) :
+    lfTotal bs = ((bs.map List.length).sum : Nat) - (if bs.all List.isEmpty then (0 : Int) else 1) := by
+  unfold lfTotal
+  have key : ∀ (bs : List (List TRow)) (s : IState), s.started = false →
+      (bs.foldl lfAdd s).count =
+        s.count + ((bs.map List.length).sum : Nat) - (if bs.all List.isEmpty then (0 : Int) else 1) := by
+    intro bs
+    induction bs with
+    | nil => intro s _; simp
+    | cons b r ih =>
+      intro s hs
+      cases b with
+      | nil =>
+        simp only [List.foldl_cons, lfAdd_empty_unstarted s hs, List.map_cons, List.length_nil,
+          List.sum_cons, Nat.zero_add, List.all_cons, List.isEmpty_nil, Bool.true_and]
+        exact ih s hs
+      | cons x t =>
+        simp only [List.foldl_cons, List.all_cons, List.isEmpty_cons, Bool.false_and,
+          Bool.false_eq_true, if_false, List.map_cons, List.sum_cons]
+        have h1 : (lfAdd s (x :: t)).started = true := by simp [lfAdd, hs]
+        have h2 : (lfAdd s (x :: t)).count = s.count + (((x :: t).length : Nat) : Int) - 1 := by
+          simp [lfAdd, hs]; omega
+        rw [foldl_lfAdd_started r _ h1, h2]
+        omega
+  have := key bs {} rfl
+  simpa using this
+
+theorem lfTotal_cons (b : List TRow) (r : List (List TRow)) (hb : b ≠ []) :
     lfTotal (b :: r) = (((b :: r).map List.length).sum : Nat) - 1 := by
-  simp only [lfTotal, List.foldl_cons]
-  have h1 : (lfAdd {} b).started = true := by simp [lfAdd]
-  have h2 : (lfAdd {} b).count = (b.length : Int) - 1 := by simp [lfAdd]
-  rw [foldl_lfAdd_started r _ h1, h2]
-  simp only [List.map_cons, List.sum_cons]
-  omega
+  rw [lfTotal_rows]
+  have : (b :: r).all List.isEmpty = false := by
+    cases b with
+    | nil => exact absurd rfl hb
+    | cons _ _ => simp
+  rw [this]; simp
 
 theorem length_mkRows (oi pre : List Int) (uses : List (Nat × Int)) :
     (mkRows oi pre uses).length = uses.length := by simp [mkRows]
@@ -792,29 +827,20 @@ theorem rows_leader (n : Nat) (groups : List (List FiberIn)) :
         List.isEmpty_cons, Bool.false_and, Bool.false_eq_true, if_false]
       omega
 
-theorem leaderBatchesOf_ne_nil (n : Nat) (g : List FiberIn) (r : List (List FiberIn)) :
-    ∃ b t, leaderBatchesOf n (g :: r) = b :: t := by
-  cases g with
-  | nil => exact ⟨_, _, rfl⟩
-  | cons f g' => exact ⟨_, _, rfl⟩
-
-/-- leader-follower: any grouping, empty calls anywhere, provided at least one intersection
-    has run before the last call (otherwise there is no header and the total is -1) -/
-theorem lfTotal_leader (n : Nat) (groups : List (List FiberIn))
-    (hne : groups = [] ∨ groups.all List.isEmpty = false) :
-    lfTotal (leaderBatchesOf n groups) = (lfSpecAll groups.flatten : Int) := by
-  cases groups with
+theorem leaderBatches_all_empty (n : Nat) (groups : List (List FiberIn)) :
+    (leaderBatchesOf n groups).all List.isEmpty = groups.all List.isEmpty := by
+  induction groups with
   | nil => rfl
-  | cons g r =>
-    have hall : (g :: r).all List.isEmpty = false := by
-      rcases hne with h | h
-      · cases h
-      · exact h
-    obtain ⟨b, t, hb⟩ := leaderBatchesOf_ne_nil n g r
-    have hr := rows_leader n (g :: r)
-    rw [hb] at hr ⊢
-    rw [lfTotal_cons, hr, hall]
-    simp
+  | cons g r ih =>
+    cases g with
+    | nil => simpa [leaderBatchesOf] using ih
+    | cons f g' => simp [leaderBatchesOf]
+
+/-- leader-follower: any grouping, empty calls anywhere (also when no intersection ever runs) -/
+theorem lfTotal_leader (n : Nat) (groups : List (List FiberIn)) :
+    lfTotal (leaderBatchesOf n groups) = (lfSpecAll groups.flatten : Int) := by
+  rw [lfTotal_rows, rows_leader, leaderBatches_all_empty]
+  split <;> simp
 
 theorem singletons_ok (n : Nat) (fs : List FiberIn)
     (hshape : ∀ f ∈ fs, f.oi.length + 1 = n ∧ f.pre.length + 1 = n) :
